@@ -223,6 +223,7 @@ const (
 	fGarbage
 	fReadErr
 	fWMode
+	fFloat // FP term when the file holds a float text (then fGarbage is true for integer reads)
 )
 
 func (e *Engine) filesCell(st *State) int {
@@ -236,7 +237,7 @@ func (e *Engine) fileGet(st *State, path string) *StructV {
 			return en.V.(*StructV)
 		}
 	}
-	return &StructV{F: []Value{smt.False, smt.IntC(0), smt.False, smt.False, smt.IntC(0)}}
+	return &StructV{F: []Value{smt.False, smt.IntC(0), smt.False, smt.False, smt.IntC(0), Opaque{What: "nofloat"}}}
 }
 
 func (e *Engine) fileSet(st *State, path string, f *StructV) {
@@ -298,7 +299,14 @@ func registerFiles(e *Engine) {
 	e.reg(z+"FilePut", func(c *CallCtx, st *State, args []Value) []Outcome {
 		p := c.E.pathArg(args[0], "FilePut")
 		f := c.E.fileGet(st, p)
-		f = with(with(with(f, fExists, args[1]), fValue, args[2]), fGarbage, smt.False)
+		f = with(with(with(with(f, fExists, args[1]), fValue, args[2]), fGarbage, smt.False), fFloat, Opaque{What: "nofloat"})
+		c.E.fileSet(st, p, f)
+		return one(st, nil)
+	})
+	e.reg(z+"FilePutFloat", func(c *CallCtx, st *State, args []Value) []Outcome {
+		p := c.E.pathArg(args[0], "FilePutFloat")
+		f := c.E.fileGet(st, p)
+		f = with(with(with(f, fExists, smt.True), fGarbage, smt.True), fFloat, args[1])
 		c.E.fileSet(st, p, f)
 		return one(st, nil)
 	})
@@ -399,7 +407,11 @@ func registerFiles(e *Engine) {
 				outs = append(outs, Outcome{St: sts[1], Ret: Tuple{Str{}, en.newError(sts[1], "exit status 1")}})
 			}
 			if sts[2] != nil {
-				outs = append(outs, Outcome{St: sts[2], Ret: Tuple{Str{S: "garbage"}, nilErr}})
+				if ft, ok := f.F[fFloat].(*smt.Term); ok {
+					outs = append(outs, Outcome{St: sts[2], Ret: Tuple{Str{FNum: ft}, nilErr}})
+				} else {
+					outs = append(outs, Outcome{St: sts[2], Ret: Tuple{Str{S: "garbage"}, nilErr}})
+				}
 			}
 			return outs
 		case exe == "/bin/sh" && len(av) == 3:
